@@ -261,4 +261,23 @@ PROPS = {
         "level_text": "For every explored (n, epoch) the shuffle was a permutation (exhaustive for n<=6000 quick / 20000 thorough); for every explored file, epoch and sub-range each non-blank line was delivered exactly once byte for byte, incl. blank lines in every place and lines straddling the 32 MiB read-window refill. Held on the executions observed.",
         "level_note": "trusted: the harness's file writer and id scheme; real file I/O through the OS page cache",
     },
+    "C13": {
+        "pkg": "./c13",
+        "stages": [
+            {"name": "race", "flags": ["-race"], "timeout_q": 2400, "timeout_t": 14400, "stall": 600},
+            {"name": "plain", "timeout_q": 1800, "timeout_t": 14400, "stall": 600},
+            {"name": "real", "timeout_q": 2400, "timeout_t": 14400, "stall": 900},
+        ],
+        "rule": "cases = executions of the real uci.Driver connected through pipes, each judged by an offline checker over ONE unified trace (send record appended before a command is written, receive record when the consumer reads a line): #bestmove == #go with the k-th bestmove after the k-th go, "
+                "every info line of search k between go_k and bestmove_k (mock infos carry search id + sequence number + CRC over a long variable-length payload: lost, duplicated, reordered, torn or recycled-too-early buffers fail), #readyok == #isready and never ahead of it, uci/uciok, every line in the output grammar, "
+                "Run returns after quit / end of input and no goroutine of the bubble remains. Workload A (testing/synctest virtual time, controllable mock search yielding at every progress point, under -race and plain): (1) systematic sweep: in-search command {none, stop, isready, isready x3, ponderhit, quit, EOF} x every progress point incl. the race with the search returning "
+                "x go form {infinite, movetime, ponder} x follow-up {none, isready, position+go} x output back-pressure (stalled consumer fills the 4-slot output channel); (2) hold scenarios: the interrupt goroutine parked at the tag-guarded scheduling hook after k processed lines while the search finishes, then the GUI stalls its reading, floods isready, queues the next go and releases the goroutine (x40 repetitions: outcome depends on the runtime's random select); "
+                "(3) random schedule explorer: random walks over {send next conforming command from the grammar, permit one mock step, stall/resume consumer, park/release at the hook, advance virtual time, synctest.Wait}. A deadlock is seen logically (all goroutines durably blocked and an answer missing). Workload B (real search, real time, 16 drivers in parallel, -race and plain): random conforming scripts with go nodes/depth/movetime/clock/infinite/ponder, stop / isready floods / ponderhit / quit / EOF after delays of 0..50 ms. "
+                "distinct_nontrivial = distinct schedules (action lists) + distinct real-time scripts; coverage also reports the number of distinct observed event-order signatures.",
+        "assumptions": ["scripts are protocol-conforming: a new go/position is only sent after the previous bestmove was RECEIVED (the driver drops non-control lines during a search by design)",
+                        "in Workload B a missing bestmove after stop / a Run that has not returned 90 s (scaled by VERIF_TIMEOUT_SCALE) after quit is bounded-progress evidence, everything else about time is only a watchdog (inconclusive)"],
+        "technique": "runtime monitor: offline trace checker (exactly-once, ordering, causality, CRC-protected payloads) over schedules explored in synctest virtual time with a controllable mock search, a scheduling hook and output back-pressure; real-search stress; Go race detector",
+        "level_text": "Every explored schedule (~1e4 quick / ~8e5 thorough virtual-time schedules incl. every injection point of the systematic sweep and the hold scenarios, plus hundreds/thousands of real-time sessions on 16 parallel drivers) satisfied the request/response trace specification, terminated with all goroutines gone, and produced no race report. Exploration at the granularity of communication events; not a proof over all interleavings.",
+        "level_note": "trusted: testing/synctest (durable blocking = quiescence), the mock search as a stand-in for search progress points in workload A; preemption inside straight-line code is explored only as far as the Go scheduler and the race detector happen to",
+    },
 }
